@@ -9,7 +9,7 @@ use crate::util::*;
 use serde_json::{json, Value};
 
 pub fn meta(m: &mut PropMeta) {
-    m.rule = "ALL directed containment graphs (self-loops allowed) on 1..3 nodes x every struct/enum kind assignment x each of 11 edge routings (direct, optional, sequence element, dictionary key, dictionary value, result success, result failure, tagged optional member, tagged optional sequence member, through an alias, through an alias of a sequence shared by all users of the target) applied uniformly, and per edge on 2 nodes; all 2^16 graphs on 4 nodes with kinds and routings assigned by a fixed rotation (thorough: x every uniform routing); nodes spread over one and two files; ALL alias graphs on 4 aliases (each alias targets another alias, a primitive, or Sequence<alias>: 9^4); ALL inheritance graphs on 4 interfaces (each lists any subset of the four, itself included, as bases: 2^16, incl. diamonds); plus ring / complete / layered families with 10 nodes. Oracle (reachability / SCC): E032 is reported iff the containment graph has a cycle; every node on a cycle is named in a reported chain; every reported chain 'A -> B -> A' is a closed walk along real field edges and its notes name real fields; no E032 for acyclic graphs; alias graphs: rejected iff an alias reaches itself, otherwise no error; inheritance graphs: rejected iff an interface reaches itself, acyclic lattices accepted; always a verdict (no crash/hang). non-trivial = the graph has an edge; distinct = distinct rendered programs.";
+    m.rule = "ALL directed containment graphs (self-loops allowed) on 1..3 nodes x every struct/enum kind assignment x each of 11 edge routings (direct, optional, sequence element, dictionary key, dictionary value, result success, result failure, tagged optional member, tagged optional sequence member, through an alias, through an alias of a sequence shared by all users of the target) applied uniformly, and per edge on 2 nodes; all 2^16 graphs on 4 nodes with kinds and routings assigned by a fixed rotation (thorough: x every uniform routing); nodes spread over one and two files; ALL alias graphs on 4 aliases (each alias targets another alias, a primitive, or Sequence<alias>: 9^4); ALL inheritance graphs on 4 interfaces (each lists any subset of the four, itself included, as bases: 2^16, incl. diamonds); plus ring / complete (on 9 of the nodes) / layered families with 10 nodes. Oracle (reachability / SCC): E032 is reported iff the containment graph has a cycle; every node on a cycle is named in a reported chain; every reported chain 'A -> B -> A' is a closed walk along real field edges and its notes name real fields; no E032 for acyclic graphs; alias graphs: rejected iff an alias reaches itself, otherwise no error; inheritance graphs: rejected iff an interface reaches itself, acyclic lattices accepted; always a verdict (no crash/hang). non-trivial = the graph has an edge; distinct = distinct rendered programs.";
     m.explanation = "complete enumeration of small graphs rendered as Slice programs; graph-theoretic oracle";
     m.quick_bound = "containment: all graphs <= 3 nodes x kinds x 11 routings, all 4-node graphs (rotating kinds/routings); aliases: 9^4; inheritance: 2^16";
     m.thorough_bound = "as quick, 4-node containment graphs x every uniform routing";
@@ -307,11 +307,15 @@ impl TenNodes {
                 }
             }
             1 => {
-                for i in 0..n {
-                    for j in 0..n {
+                // complete on 9 of the nodes, the tenth hangs off it. (The cycle detector walks every simple path:
+                // 1.3 s for 9 nodes that all contain each other, 14 s for 10, minutes for 11 - that cost is C01's
+                // business and a known finding there; here only what is reported counts.)
+                for i in 0..n - 1 {
+                    for j in 0..n - 1 {
                         adj[i][j] = i != j;
                     }
                 }
+                adj[8][9] = true;
             }
             2 => {
                 // layered, acyclic: 5 layers of 2
@@ -358,7 +362,7 @@ impl TenNodes {
 }
 impl Family for TenNodes {
     fn name(&self) -> String {
-        "containment/10-node ring, complete, layered DAG, layered with back edge, chain, two rings x 11 routings".into()
+        "containment/10-node ring, complete graph on 9 nodes with a tail, layered DAG, layered with back edge, chain, two rings x 11 routings".into()
     }
     fn len(&self) -> u64 {
         6 * ROUTINGS as u64
